@@ -374,6 +374,7 @@ public:
 			ar.swap(tmp);
 		}
 		catch(std::bad_alloc const &) {
+			remove(key);
 			return;
 		}
 
